@@ -16,7 +16,7 @@ from .ref.wire import WireError, encode_packet, split_packets
 
 STEP_KINDS = ('direct_other', 'add_uid', 'add_uattr', 'add_subkey', 'rebind_subkey', 'recertify', 'certify_other', 'revoke_uid', 'revoke_subkey',
               'revoke_key', 'add_revoker', 'del_uid', 'protect', 'derive_pub', 'drop_pub', 'copy_key', 'export_import', 'tick')
-NAMES = ['Ann', 'Bea Long Name', 'Cy', 'Dée', 'Eve (x)', 'Flo']
+NAMES = ['Ann', 'Bea Long Name', 'Cy', 'Dée', 'Eve (x)', 'Flo', 'Jose\u0301 (decomposed)']
 
 
 class SigRec(object):
